@@ -491,6 +491,7 @@ class WsFeed(ProducerContract):
                 ('a-rejected-websocket-is-closed', Implies(rej(ip.st), ip.st.get(W.state, 'closed')))]
 
     def gen_ghost(self, ip, a):
+        ip.st.ghost.setdefault('feed_args', []).append(a.data)
         return dict(stage=IntVal(0))     # 0 running, 1 after Rejected, 2 after ProtocolError
 
     def ghost_types(self):
